@@ -7,7 +7,7 @@ package render
 
 // "tree": rendering never writes the compiled template, slices that existed before the
 // call, or the wiring of a trimWriter (C03).
-//@ macro tree = sameold("S$Val") && sameold("S$Str") && sameold("F$render.trimWriter$w") && sameold("F$render.SeqNode$Children") && sameold("F$render.BlockNode$Body") && sameold("F$render.BlockNode$Clauses") && sameold("F$render.BlockNode$renderer") && sameold("F$render.BlockNode$Token") && sameold("F$render.TagNode$renderer") && sameold("F$render.TagNode$Token") && sameold("F$render.TextNode$Token") && sameold("F$render.ObjectNode$Token") && sameold("F$render.ObjectNode$expr") && sameold("F$render.RawNode$slices")
+//@ macro tree = sameold("S$Val") && sameold("S$Str") && sameold("F$render.trimWriter$w") && sameold("F$render.SeqNode$Children") && sameold("F$render.BlockNode$Body") && sameold("F$render.BlockNode$Clauses") && sameold("F$render.BlockNode$renderer") && sameold("F$render.BlockNode$Token") && sameold("F$render.TagNode$renderer") && sameold("F$render.TagNode$Token") && sameold("F$render.TextNode$Token") && sameold("F$render.ObjectNode$Token") && sameold("F$render.ObjectNode$expr") && sameold("F$render.RawNode$slices") && sameold("F$liquid.Template$root") && sameold("F$liquid.Template$cfg")
 
 // ---- render.Context: the interface tag renderers program against ------------
 // Bindings() is the identity of the one variable map of the current render
